@@ -18,6 +18,13 @@ RULE = ("cases are (string, 32-bit seed); enumerated: published vectors, every s
         "cross-checked against Appleby's C routine when cc exists). Non-trivial: length % 4 != 0 (tail "
         "path), or a code point >= 0x80 in the 4th position of a block (un-masked load), or seed >= 2^31, "
         "or a code point > 255.")
+MANIFEST = {
+    "category": "exploration",
+    "technique": "bounded-exhaustive enumeration + Hypothesis random strings, differential against an independent reference MurmurHash3 (Python, and C via ctypes)",
+    "text": "Every string up to length 3-5 over representative alphabets x 4 boundary seeds is enumerated, every length 0..64 and random seeds are sampled; each result is compared with an independent MurmurHash3_x86_32 validated on 24 published vectors. Right level: the function is pure and tiny, the bug classes (masking, tail, rotation, sign) are all reachable by short inputs.",
+    "note": "Trusts vlib/refhash.py (validated against published vectors and the C original) and CPython integer arithmetic.",
+    "design_ref": "DESIGN.md 3/C14"
+}
 ASSUMPTIONS = [
     "the reference implementation in vlib/refhash.py is MurmurHash3_x86_32 (checked against published vectors and, when cc is present, against the C original on every case)",
     "strings within code points 0..255 stand for the bytes with those values",
